@@ -1576,7 +1576,10 @@ func (st *c18State) e2eLevel(rng *rand.Rand) {
 		phaseA = append(phaseA, mk("psdir", "a"+sp+"b", c18Class(sp)))
 	}
 	phaseA = append(phaseA, mk("psdir", "a\u00e9b", "utf8-2byte"), mk("psdir", "a\u4e2db", "utf8-3byte"), mk("psdir", "a\U0001F600b", "utf8-4byte"),
-		mk("psdir", "a\x01b", "ctrl-01"), mk("psdir", "a\xffb", "invalid-utf8"))
+		mk("psdir", "a\x01b", "ctrl-01"), mk("psdir", "a\xffb", "invalid-utf8"),
+		// a carriage return alone and next to a line feed (what a line-ending
+		// normalisation of the finished script would eat)
+		mk("psdir", "a\rb", "cr"), mk("psdir", "a\r\nb", "crlf"), mk("psdir", "a\r\rb", "cr-cr"))
 	progSingles := []string{" ", "'", "\"", "\\", "$", "`", "\n", "*", ";", "=", "\u00e9"}
 	if !c.Quick() {
 		progSingles = append([]string{}, c18Specials...)
